@@ -12,6 +12,7 @@ import (
 
 	"verif/internal/props"
 	"verif/internal/rep"
+	"verif/internal/worker"
 )
 
 func main() {
@@ -24,6 +25,9 @@ func main() {
 		for _, id := range props.IDs() {
 			fmt.Println(id)
 		}
+		return
+	case "worker":
+		worker.ChildMain(os.Args[2:])
 		return
 	case "replay":
 		b, err := os.ReadFile(os.Args[2])
